@@ -82,7 +82,31 @@ fn refused() -> &'static Vec<SocketAddr> {
     REFUSED.get_or_init(|| (0..6).map(|i| make_refuser(i < 3)).collect())
 }
 
+/// Wall-clock guard against an overloaded machine: a successful race that took clearly longer than its own attempts
+/// explain (attempt i is started at most i race intervals after the first) is run a second time and the faster of the
+/// two runs is reported. Code that really waits too long does so both times.
 pub fn run(sc: &Value) -> Vec<String> {
+    let first = run_once(sc);
+    let slow = |l: &String| -> Option<usize> {
+        let e: Value = serde_json::from_str(l).ok()?;
+        let spawns = ga(&e, "spawns").len();
+        let elapsed = gu(&e, "elapsed");
+        if gs(&e, "res") == "ok" && elapsed > 200 * spawns.saturating_sub(1) + 250 {
+            Some(elapsed)
+        } else {
+            None
+        }
+    };
+    if let Some(t1) = first.first().and_then(slow) {
+        std::thread::sleep(Duration::from_millis(200));
+        let second = run_once(sc);
+        let t2 = second.first().and_then(|l| serde_json::from_str::<Value>(l).ok()).map(|e| gu(&e, "elapsed")).unwrap_or(usize::MAX);
+        return if t2 < t1 { second } else { first };
+    }
+    first
+}
+
+fn run_once(sc: &Value) -> Vec<String> {
     let resolved: Vec<Value> = ga(sc, "resolved").to_vec();
     if gb(sc, "ctoMax") && resolved.iter().any(|a| gs(a, "beh") == "blackhole") {
         return vec![]; // "no connect timeout of its own" and an address that never answers: only the kernel would end it
